@@ -3,6 +3,7 @@ package bubble
 import (
 	"context"
 	"math/rand"
+	"os"
 	"runtime"
 	"sync"
 	"testing"
@@ -257,6 +258,23 @@ func TestMapOrd(t *testing.T) {
 	w := newTraceWriter(envStr("VH_OUT", "/tmp/mapord.ndjson"))
 	n := envInt("VH_N", 100)
 	runs, leaks := 0, 0
+	if f := os.Getenv("VH_SCHED"); f != "" { // schedules generated by TLC from MapOrdEnv.tla: replayed literally
+		var scheds []moScen
+		readJSON(t, f, &scheds)
+		for _, s := range scheds {
+			if s.Fail == nil {
+				s.Fail = map[int]bool{}
+			}
+			evs, leak, msg := runMapOrd(t, s)
+			if leak {
+				leaks++
+			}
+			writeRuns(w, &runs, evs, leak, msg, Ev{"kind": s.Kind, "p": s.P, "buf": s.Buf, "gmp": runtime.GOMAXPROCS(-1), "mctx": s.MCtx})
+		}
+		w.close()
+		report(Ev{"engine": "bubble", "subject": "mapord", "runs": runs, "events": w.n, "leaks": leaks, "source": "tlc-schedules"})
+		return
+	}
 	// directed: the look-ahead is filled (results finished, nobody reads), then Close / a late first Next
 	for p := 1; p <= 3; p++ {
 		for extra := 0; extra <= 3; extra++ {
